@@ -71,6 +71,7 @@ def stage_repo(stage):
         return out
 
     shutil.copytree(REPO, stage, ignore=ignore, symlinks=True)
+    write_dict(stage)
     hdir = os.path.join(VERIF, "harness", "root")
     for n in sorted(os.listdir(hdir)):
         if n.endswith(".go"):
@@ -79,6 +80,82 @@ def stage_repo(stage):
         f.write(RAPID_REQ)
     with open(os.path.join(stage, "go.sum"), "a") as f:
         f.write("\n" + RAPID_SUM)
+
+
+_GO_ESC = {"n": 10, "t": 9, "r": 13, "a": 7, "b": 8, "f": 12, "v": 11, "\\": 92, '"': 34, "'": 39}
+
+
+def _go_unquote(body):
+    out = bytearray()
+    i = 0
+    while i < len(body):
+        c = body[i]
+        if c != "\\":
+            out += c.encode("utf-8")
+            i += 1
+            continue
+        e = body[i + 1]
+        if e == "x":
+            out.append(int(body[i + 2:i + 4], 16)); i += 4
+        elif e == "u":
+            out += chr(int(body[i + 2:i + 6], 16)).encode("utf-8", "replace"); i += 6
+        elif e == "U":
+            out += chr(int(body[i + 2:i + 10], 16)).encode("utf-8", "replace"); i += 10
+        elif e in "01234567":
+            out.append(int(body[i + 1:i + 4], 8) & 255); i += 4
+        else:
+            out.append(_GO_ESC.get(e, ord(e) & 255)); i += 2
+    return bytes(out)
+
+
+def source_literals(stage):
+    """Every string, rune-free byte-slice and raw-string literal (2..64 bytes) of the tree under
+    test: the dictionary the generators splice into names, keys, values, contents and text, the
+    way fuzzers use a dictionary of the target's magic values."""
+    import re
+    lits = {}
+    for root, _, files in os.walk(stage):
+        for n in sorted(files):
+            if not n.endswith(".go") or n.endswith("_test.go") or n.startswith("zz_verif"):
+                continue
+            try:
+                src = open(os.path.join(root, n), encoding="utf-8", errors="replace").read()
+            except OSError:
+                continue
+            src = re.sub(r"(?m)^\s*//.*$", "", src)
+            for m in re.finditer(r'"((?:[^"\\\n]|\\.)*)"|`([^`]*)`', src):
+                try:
+                    b = _go_unquote(m.group(1)) if m.group(1) is not None else m.group(2).encode("utf-8")
+                except Exception:
+                    continue
+                if 2 <= len(b) <= 64:
+                    lits[b] = 1
+            for m in re.finditer(r"\[\]byte\{([^{}]*)\}", src):
+                vals = []
+                for tok in m.group(1).replace("\n", " ").split(","):
+                    tok = tok.strip()
+                    if not tok:
+                        continue
+                    try:
+                        if tok.startswith("'") and tok.endswith("'") and len(tok) >= 3:
+                            vals += list(_go_unquote(tok[1:-1]))
+                        else:
+                            vals.append(int(tok, 0) & 255)
+                    except Exception:
+                        vals = None
+                        break
+                if vals and 2 <= len(vals) <= 64:
+                    lits[bytes(vals)] = 1
+    return sorted(lits)[:4000]
+
+
+def write_dict(stage):
+    lits = source_literals(stage)
+    with open(os.path.join(stage, "zz_verif_dict_test.go"), "w") as f:
+        f.write("//go:build verif\n\npackage mimetype\n\n// generated by vcheck.py from the literals of the tree under test\nvar vfDictLits = []string{\n")
+        for b in lits:
+            f.write('\t"' + "".join("\\x%02x" % c for c in b) + '",\n')
+        f.write("}\n")
 
 
 def build(stage, race, fuzz):
